@@ -155,7 +155,7 @@ def main():
         not_applicable=na)
     json.dump(m, open(os.path.join(V, "MANIFEST.json"), "w"), indent=1)
 
-HOOK_COMMITS = ["4b6c86a", "f712ea4", "5dd3b6c", "b7bc5fc"]
+HOOK_COMMITS = ["4b6c86a", "f712ea4", "5dd3b6c", "b7bc5fc", "4953d18"]
 ENGINES = [
  dict(name="Merger", path="spec/Merger", serves_properties=["C18"], kind_free_text="TLA+ MergerP/MergerI + TLC MC + trace validation"),
  dict(name="Header", path="spec/Header", serves_properties=["C07"], kind_free_text="TLA+ HeaderP/HeaderI + TLC MC + trace validation"),
